@@ -437,6 +437,7 @@ func runCases(o *hx.Opts, w *lineio.Writer) error {
 		r := o.Rand(12)
 		ins = append(ins, s.systematic(r)...)
 		ins = append(ins, s.lenBoundary()...)
+		ins = append(ins, s.helperCases()...)
 		ins = append(ins, s.excluded(o.Rand(13))...)
 		ins = append(ins, s.rawCases(o.Rand(15))...)
 		ins = append(ins, s.glueCases(o.Rand(16), o.N(25, 400))...)
